@@ -77,6 +77,8 @@ type TaskScript struct {
 	HookExit            int // hook / basic task: exit code reported when triggered
 	HookNeverTerminates bool
 	HookInvoluntary     bool
+	// HookQuick: the hook's child ends before the acknowledgement of the trigger travels back
+	HookQuick bool
 }
 
 type SimTask struct {
@@ -157,6 +159,8 @@ type World struct {
 	FailCall func(inc int, typ string) bool
 	// Latency of event delivery.
 	Latency func(kind string) time.Duration
+	// CallLatency of a scheduler call (round trip to the master), by call type.
+	CallLatency func(typ string) time.Duration
 	// Invalid launches seen by the master (C05 observation point).
 	InvalidLaunches []string
 	RetryUnacked    time.Duration
@@ -238,6 +242,11 @@ func (w *World) DropSubscription() {
 	w.mu.Lock()
 	st := w.sub
 	w.sub = nil
+	// a master recovers the offers outstanding to a framework that disconnects (accepting one
+	// of them later fails as for any unknown offer); fresh ones follow the re-subscription
+	for id := range w.Offers {
+		delete(w.Offers, id)
+	}
 	w.mu.Unlock()
 	if st != nil && !st.closed {
 		st.closed = true
@@ -262,6 +271,11 @@ func (c *caller) Call(ctx context.Context, call *scheduler.Call) (mesos.Response
 		select {} // a dead process makes no calls
 	}
 	typ := call.GetType().String()
+	if w.CallLatency != nil && typ != "SUBSCRIBE" {
+		if d := w.CallLatency(typ); d > 0 {
+			simrt.Sleep(d) // the HTTP round trip to the master
+		}
+	}
 	lg := CallLog{Inc: c.inc, Type: typ, FwID: call.GetFrameworkID().GetValue()}
 	fail := w.FailCall != nil && typ != "SUBSCRIBE" && w.FailCall(c.inc, typ)
 	defer func() {
@@ -377,6 +391,11 @@ func (w *World) sendOffersFor(after time.Duration, agents []*Agent) {
 			simrt.Sleep(d)
 		}
 		w.mu.Lock()
+		if w.sub == nil {
+			// a master makes no offers to a framework that is not connected
+			w.mu.Unlock()
+			return
+		}
 		var list []mesos.Offer
 		for _, a := range agents {
 			if a.Lost {
@@ -842,6 +861,12 @@ func (w *World) message(m *scheduler.Call_Message, lg *CallLog) error {
 		t.Commands = append(t.Commands, rc)
 		w.mu.Unlock()
 		res := controlcommands.NewMesosCommandResponse_TriggerHook(&cmd, nil, t.ID)
+		if sc.HookQuick && !sc.HookNeverTerminates {
+			// a very short hook: BASIC_TASK_TERMINATED overtakes the acknowledgement of the trigger
+			w.BasicTaskTerminated(t, sc.HookExit, !sc.HookInvoluntary)
+			w.sendToCore(t, res, 15*time.Millisecond)
+			return nil
+		}
 		w.sendToCore(t, res, 10*time.Millisecond)
 		if !sc.HookNeverTerminates {
 			w.S.Go("mesos-hook-exit", func() {
